@@ -86,13 +86,17 @@ func RunSpecLab(c *orch.Ctx, l *lab.Lab, bin string, projects []*synth.Project, 
 // rejectionReason extracts the first error line of a failed run (for evidence only).
 func rejectionReason(cr lab.CLIResult) string {
 	t := lab.StripAnsi(cr.Stderr + cr.Stdout)
-	for _, ln := range strings.Split(t, "\n") {
+	lines := strings.Split(t, "\n")
+	for i, ln := range lines {
+		if strings.HasSuffix(strings.TrimSpace(ln), "Last error:") && i+1 < len(lines) {
+			ln = ln + " " + strings.TrimSpace(lines[i+1])
+		}
 		if (strings.Contains(ln, "[ERROR]") || strings.Contains(ln, "[FATAL]") || strings.Contains(ln, "panic:")) && !strings.Contains(ln, "Unknown type: map") {
 			if i := strings.Index(ln, "]"); i > 0 {
 				ln = strings.TrimSpace(ln[i+1:])
 			}
-			if len(ln) > 160 {
-				ln = ln[:160]
+			if len(ln) > 260 {
+				ln = ln[:260]
 			}
 			return ln
 		}
